@@ -89,6 +89,9 @@ def run_case(case):
             # reversed rule order: which of two tied rules comes first is a presentation choice
             ir['rules'] = list(reversed(ir['rules']))
         judge(ir, w, r, case, nonrec=False)
+        if not order:
+            for gr in growable(ir):
+                judge(ir, w, r, case, nonrec=False, grow=gr)
     elif case[0] == 'V1':
         ir, wspec = case[1], case[2]
         pres = {'node_order': {0: tuple(reversed(range(len(ir['rules'][0][1]))))}} if len(case) > 3 else None
@@ -188,7 +191,20 @@ def tie_cycle(ir, w, val, start, ea0):
     return dfs((start, ea0))
 
 
-def judge(ir, w, r, case, nonrec, pres=None):
+def growable(ir):
+    """Nonterminals N (not the start symbol) such that the grammar without N - and without every rule mentioning N -
+    still gives the start symbol a rule: the grammar can be queried, grown by N and its rules, and queried again."""
+    out = []
+    for N in ir['nt']:
+        if N == ir['start']:
+            continue
+        keep = [i for i, rule in enumerate(ir['rules']) if rule[0] != N and all(l != N for l, _ in rule[3])]
+        if any(ir['rules'][i][0] == ir['start'] for i in keep) and len(keep) < len(ir['rules']):
+            out.append((N, keep))
+    return out
+
+
+def judge(ir, w, r, case, nonrec, pres=None, grow=None):
     import fggs, torch
     ir = dict(ir)
     ir['w'] = w
@@ -202,7 +218,23 @@ def judge(ir, w, r, case, nonrec, pres=None):
     start = ir['start']
     S = IR.semiring('viterbi', 'float64')
     try:
-        g = IR.build_fgg(ir, 'viterbi', 'float64', pres=pres)
+        if grow is None:
+            g = IR.build_fgg(ir, 'viterbi', 'float64', pres=pres)
+        else:
+            # history: the grammar is first built without nonterminal N, queried once, then grown in place
+            N, keep = grow
+            part = dict(ir)
+            part['nt'] = {k: v for k, v in ir['nt'].items() if k != N}
+            part['rules'] = [ir['rules'][i] for i in keep]
+            used = {l for rule in part['rules'] for l, _ in rule[3]}
+            part['term'] = {k: v for k, v in ir['term'].items() if k in used}
+            g = IR.build_fgg(part, 'viterbi', 'float64')
+            for ea in oracles.all_assts(oracles.ext_shape(ir, start)):
+                try:
+                    fggs.viterbi(g, ea, semiring=S)
+                except Exception:
+                    pass
+            IR.extend_fgg(g, ir, [i for i in range(len(ir['rules'])) if i not in keep], 'viterbi', 'float64')
     except Exception as e:
         r.exc(e, 'build', case)
         return
@@ -210,7 +242,7 @@ def judge(ir, w, r, case, nonrec, pres=None):
     zvit = None
     for ea in oracles.all_assts(shape):
         opt = val[start][ea]
-        key = (tuple(ir['rules']), tuple(sorted(ir['nl'].items())), repr(w), ea, repr(pres))
+        key = (tuple(ir['rules']), tuple(sorted(ir['nl'].items())), repr(w), ea, repr(pres), grow and grow[0])
         if opt == 0 or opt == IR.INF:
             r.excl['optimum zero or infinite'] += 1
             continue
